@@ -152,7 +152,9 @@ def base_scenario(seed, profile, fams, dtype=None, want=None, direction=None, de
               "constants": {"k": r_s.choice([1.0, 1.0, rnd(r_s, 0.5, 1.5, 3)])}}
     if method_family(method) == "splitting" and r_s.random() < 0.3:
         n = prob["shape"][0]
-        mask = [False] * (n // 2) + [True] * (n - n // 2)
+        mask = [bool(r_s.random() < 0.5) for _ in range(n)]          # any partition: the composition formula is defined for every mask
+        if all(mask) or not any(mask):
+            mask = [False] * (n // 2) + [True] * (n - n // 2)
         system["kick_mask"] = mask
     knobs = {}
     if r_k.random() < 0.6:
@@ -403,7 +405,8 @@ def gen_C02_base(seed):
         mid = round(s["t0"] + direction * L * r.uniform(0.2, 0.8), 6)
         scn["ops"] = [{"op": "integrate", "t": mid}, {"op": "integrate"}]
     if is_implicit(s["method"]) and r.random() < 0.5:
-        scn["knobs"]["newton_cap"] = r.choice([1, 2, 4])
+        # one Newton iteration per solve never converges on the extended-precision path: the step shrinks for thousands of steps
+        scn["knobs"]["newton_cap"] = r.choice([2, 4]) if dtype == "longdouble" else r.choice([1, 2, 4])
     if is_implicit(s["method"]) and r.random() < 0.3:
         scn["knobs"]["retry_cap"] = r.choice([2, 3, 5])
     return scn
